@@ -492,8 +492,19 @@ func runMerge(sc *streamScenario, vs []variantSpec, rec *recorder) {
 		case "foreignpat":
 			// a sound PAT-shaped section (table_id 0, valid CRC_32) on a PID that is not PID 0 (v.PID, a DVB SI PID the stream does not use),
 			// naming one of the stream's elementary PIDs (v.At) as a program map PID: only PID 0 carries the PAT
-			m := &tableModel{K: "pat", TID: 0, SSI: true, CNI: true, Ext: 7, PAT: &astits.PATData{Programs: []*astits.PATProgram{{ProgramNumber: 1, ProgramMapID: uint16(v.At)}}}}
-			s = append(s, packetise(v.PID, append([]byte{0}, twinSection(m)...), rg.intn(16))...)
+			pn, cc0 := uint16(1), rg.intn(16)
+			if v.K == "nit" {
+				// ... or a PAT on PID 0 whose program_number 0 entry (the network PID, not a program map PID) names the elementary PID
+				pn = 0
+				for i := range bs.pkts {
+					if bs.pkts[i].PID == 0 && bs.pkts[i].K == "" {
+						cc0 = (bs.pkts[i].CC + 15) % 16
+						break
+					}
+				}
+			}
+			m := &tableModel{K: "pat", TID: 0, SSI: true, CNI: true, Ext: 7, PAT: &astits.PATData{Programs: []*astits.PATProgram{{ProgramNumber: pn, ProgramMapID: uint16(v.At)}}}}
+			s = append(s, packetise(v.PID, append([]byte{0}, twinSection(m)...), cc0)...)
 			for i := range bs.pkts {
 				s = append(s, pk(i)...)
 			}
